@@ -1,113 +1,83 @@
 /-
-C07, nested monitors end to end: where an OOBData comes from, for coroutines nested to any depth.
+C07, nested monitors end to end: where an OOBData comes from, for coroutines nested to any depth
+(repaired relay, /repo e5acd69).
 
-`Tag A c` says of a coroutine `c` (a leaf, or a `nest` of parents over a leaf): for every activation
-that starts with no oob value in flight anywhere (`NoNeg`) and `A` active, there is a *syntactic*
-source `src` — "the activation ended because some body below executed `await A.oob(d)`" — and the
-cell of `A` is -1 at the resulting yield exactly in that case; no other cell is -1 then, none at all
-when the activation ends otherwise, and `A`'s cell is never touched by anybody else.
-The relay of `A` raises OOBData exactly when its cell is -1 (`nested_monitors_outer_view`), so this is
-"each driver sees exactly its own data, once, in order".
+`Tag A c` says of a coroutine `c` (a leaf, or a `nest` of parents over a leaf): for every activation run
+while `A` is active (its cell is 1, or a left-over -1), there is a *syntactic* source `src` — "the
+activation ended because some body below executed `await A.oob(d)`" — and the object that comes out is
+the request `req A d` exactly in that case, with `A`'s cell at -1 then; `A`'s cell is never reset by
+anybody below.  The relay of `A` raises OOBData exactly for a request addressed to `A`
+(`Monitor.relayTop`), so this is "each driver sees exactly its own data, once, in order".
 
-GeneratorExit delivered to a parent that is waiting in a sub-call is excluded (`Safe`): the inner relay
-then *closes* the child, a yield made in response is swallowed (RuntimeError, by design) and, if it
-was an `oob` to an outer monitor, that monitor's cell stays -1 — the finding recorded in notes/C07.md
-(`Asynkit.C07.stale_oob_after_close` is the `decide`d witness).
+No hypothesis about GeneratorExit is needed any more: an `oob` value swallowed by the `close()` of an inner
+relay leaves a -1 behind, which the repaired relay recognises as left over because what it receives next is
+not a request addressed to it.  (Before the repair: `Asynkit.C07.stale_oob_after_close`.)
 -/
 import Asynkit.Lemmas.C07
 
 namespace Asynkit.Monitor
 open Asynkit.Proto (Val Exc Resume)
 
-/-- no oob value is in flight on any monitor -/
-def NoNeg (env : Env) : Prop := ∀ m, env m ≠ -1
+/-- monitor `A` is driving: cell 1, or -1 left over from a swallowed oob value -/
+def Active (env : Env) (A : MonId) : Prop := env A = 1 ∨ env A = -1
 
-/-- at most one oob value is in flight -/
-def AtMostOneNeg (env : Env) : Prop := ∀ m m', env m = -1 → env m' = -1 → m = m'
+theorem Active.ne_zero {env : Env} {A : MonId} (h : Active env A) : env A ≠ 0 := by
+  cases h with
+  | inl h => rw [h]; decide
+  | inr h => rw [h]; decide
 
-theorem NoNeg.atMostOne {env : Env} (h : NoNeg env) : AtMostOneNeg env :=
-  fun m _ hm _ => absurd hm (h m)
+theorem Active.set_other {env : Env} {A : MonId} (h : Active env A) (m : MonId) (x : Int) (hm : m ≠ A) :
+    Active (env.set m x) A := by
+  unfold Active; rw [Env.set_other _ _ _ _ (Ne.symm hm)]; exact h
 
-theorem NoNeg.set {env : Env} (h : NoNeg env) (m : MonId) (x : Int) (hx : x ≠ -1) : NoNeg (env.set m x) := by
-  intro k
-  by_cases hk : k = m
-  · subst hk; simpa using hx
-  · simpa [Env.set_other _ _ _ _ hk] using h k
-
-/-- consuming the one value in flight -/
-theorem AtMostOneNeg.consume {env : Env} (h : AtMostOneNeg env) (m : MonId) (hm : env m = -1) (x : Int)
-    (hx : x ≠ -1) : NoNeg (env.set m x) := by
-  intro k
-  by_cases hk : k = m
-  · subst hk; simpa using hx
-  · rw [Env.set_other _ _ _ _ hk]
-    intro hk'
-    exact hk (h k m hk' hm)
-
-def Safe (r : Resume) : Prop := r ≠ .throw .genExit
-
-/-- postcondition of an activation run with `A` active and nothing in flight -/
+/-- postcondition of an activation run with `A` active -/
 def Post {σ : Type} (A : MonId) (ok : σ → Prop) (src : Option Val) : SRes σ → Prop
   | .yield y s env' =>
-    ok s ∧ AtMostOneNeg env' ∧ (env' A = 1 ∨ env' A = -1) ∧ (env' A = -1 → src = some y) ∧ (env' A = 1 → src = none)
-  | .ret _ s env' => ok s ∧ NoNeg env' ∧ env' A = 1 ∧ src = none
-  | .raise _ s env' => ok s ∧ NoNeg env' ∧ env' A = 1 ∧ src = none
+    ok s ∧ Active env' A ∧ (∀ d, y = .req A d ↔ src = some d) ∧ (∀ d, y = .req A d → env' A = -1)
+  | .ret _ s env' => ok s ∧ Active env' A ∧ src = none
+  | .raise _ s env' => ok s ∧ Active env' A ∧ src = none
 
 /-- leaf: the activation ends in an accepted `A.oob(d)` -/
 def stepSrc {σ : Type} (A : MonId) : Step σ → Env → Option Val
   | .oob m d _ refused, env =>
-    if env m ≠ 1 then stepSrc A (refused ()) env else if m = A then some d else none
+    if env m = 0 then stepSrc A (refused ()) env else if m = A then some d else none
   | _, _ => none
 
-theorem leaf_post {σ : Type} (A : MonId) (st : Step σ) (env : Env) (hn : NoNeg env) (hA : env A = 1) :
+theorem oob_post {σ : Type} (A : MonId) (ok : σ → Prop) (m : MonId) (d : Val) (s : σ) (env : Env)
+    (hok : ok s) (hA : Active env A) :
+    Post A ok (if m = A then some d else none) (.yield (.req m d) s (env.set m (-1))) := by
+  by_cases hm : m = A
+  · subst hm
+    refine ⟨hok, Or.inr (by simp), fun d' => ?_, fun _ _ => by simp⟩
+    simp
+  · refine ⟨hok, hA.set_other m (-1) hm, fun d' => ?_, fun d' h => ?_⟩
+    · simp [hm]
+    · simp at h; exact absurd h.1 hm
+
+theorem leaf_post {σ : Type} (A : MonId) (st : Step σ) (env : Env) (hA : Active env A) :
     Post A (fun _ => True) (stepSrc A st env) (resolve st env) := by
   induction st with
-  | yield y s => exact ⟨trivial, hn.atMostOne, Or.inl hA, fun h => absurd h (hn A), fun _ => rfl⟩
-  | ret v s => exact ⟨trivial, hn, hA, rfl⟩
-  | raise e s => exact ⟨trivial, hn, hA, rfl⟩
+  | yield y s => exact ⟨trivial, hA, fun d => by simp [stepSrc], fun d h => by simp at h⟩
+  | ret v s => exact ⟨trivial, hA, rfl⟩
+  | raise e s => exact ⟨trivial, hA, rfl⟩
   | oob m d s refused ih =>
     simp only [resolve, stepSrc]
-    by_cases h1 : env m = 1
-    · simp only [h1, ne_eq, not_true_eq_false, ↓reduceIte]
-      have hone : AtMostOneNeg (env.set m (-1)) := by
-        intro a b ha hb
-        have ha' : a = m := by
-          by_cases h : a = m
-          · exact h
-          · rw [Env.set_other _ _ _ _ h] at ha; exact absurd ha (hn a)
-        have hb' : b = m := by
-          by_cases h : b = m
-          · exact h
-          · rw [Env.set_other _ _ _ _ h] at hb; exact absurd hb (hn b)
-        rw [ha', hb']
-      by_cases hm : m = A
-      · subst hm
-        exact ⟨trivial, hone, Or.inr (by simp), fun _ => by simp, fun h => by simp at h⟩
-      · have hA' : (env.set m (-1)) A = 1 := by rw [Env.set_other _ _ _ _ (Ne.symm hm)]; exact hA
-        exact ⟨trivial, hone, Or.inl hA', fun h => by rw [hA'] at h; simp at h, fun _ => by simp [hm]⟩
-    · simp only [h1, ne_eq, not_false_eq_true, ↓reduceIte]
-      exact ih ()
+    by_cases h0 : env m = 0
+    · simp only [h0, ↓reduceIte]; exact ih ()
+    · simp only [h0, ↓reduceIte]; exact oob_post A _ m d s env trivial hA
 
 /-- the tag property of a coroutine w.r.t. monitor `A` -/
 structure Tag (A : MonId) (c : SBody) where
   ok : c.σ → Prop                        -- reachable states
-  quiet : c.σ → Prop                     -- not waiting in a sub-call (GeneratorExit is harmless there)
   src : c.σ → Resume → Env → Option Val
   ok_init : ok c.init
-  post : ∀ s r env, ok s → (Safe r ∨ quiet s) → NoNeg env → env A = 1 →
-    Post A ok (src s r env) (c.resume s r env)
+  post : ∀ s r env, ok s → Active env A → Post A ok (src s r env) (c.resume s r env)
 
 def tagLeaf (A : MonId) (b : MBody) : Tag A (ofM b) where
   ok := fun _ => True
-  quiet := fun _ => True
   src := fun s r env => stepSrc A (b.resume s r) env
   ok_init := trivial
-  post := fun s r env _ _ hn hA => leaf_post A (b.resume s r) env hn hA
-
-end Asynkit.Monitor
-
-namespace Asynkit.Monitor
-open Asynkit.Proto (Val Exc Resume)
+  post := fun s r env _ hA => leaf_post A (b.resume s r) env hA
 
 variable {A : MonId} {c : SBody}
 
@@ -115,10 +85,6 @@ def okC (T : Tag A c) : CSt c.σ → Prop
   | .created s => T.ok s
   | .susp s => T.ok s
   | .done s => T.ok s
-
-def quietC (T : Tag A c) : CSt c.σ → Prop
-  | .susp s => T.quiet s
-  | _ => True
 
 /-- source of the activation that `coro.send/throw` performs (none when the body is not run) -/
 def coroSrc (T : Tag A c) (cc : CSt c.σ) (r : Resume) (env : Env) : Option Val :=
@@ -129,29 +95,28 @@ def coroSrc (T : Tag A c) (cc : CSt c.σ) (r : Resume) (env : Env) : Option Val 
   | .done _, _ => none
 
 /-- postcondition on what a coroutine object / a call reports -/
-def PostC (T : Tag A c) (src : Option Val) (cc' : CSt c.σ) (env' : Env) (yielded : Option Val) : Prop :=
-  okC T cc' ∧
+def PostC (T : Tag A c) (src : Option Val) (cc' : CSt c.σ) (env' : Env) (yielded : Option YV) : Prop :=
+  okC T cc' ∧ Active env' A ∧
   match yielded with
-  | some y => AtMostOneNeg env' ∧ (env' A = 1 ∨ env' A = -1) ∧ (env' A = -1 → src = some y) ∧ (env' A = 1 → src = none)
-  | none => NoNeg env' ∧ env' A = 1 ∧ src = none
+  | some y => (∀ d, y = .req A d ↔ src = some d) ∧ (∀ d, y = .req A d → env' A = -1)
+  | none => src = none
 
-def SOut.yielded : SOut → Option Val
+def SOut.yielded : SOut → Option YV
   | .yield y => some y
   | _ => none
 
-def CallOut.yielded : CallOut → Option Val
+def CallOut.yielded : CallOut → Option YV
   | .pending y => some y
   | _ => none
 
 theorem after_post (T : Tag A c) (src : Option Val) (res : SRes c.σ) (h : Post A T.ok src res) :
     PostC T src (SCoro.after res).1 (SCoro.after res).2.2 (SCoro.after res).2.1.yielded := by
   cases res with
-  | yield y s env' => exact ⟨h.1, h.2⟩
-  | ret v s env' => exact ⟨h.1, h.2⟩
-  | raise e s env' => cases e <;> exact ⟨h.1, h.2⟩
+  | yield y s env' => exact ⟨h.1, h.2.1, h.2.2⟩
+  | ret v s env' => exact ⟨h.1, h.2.1, h.2.2⟩
+  | raise e s env' => cases e <;> exact ⟨h.1, h.2.1, h.2.2⟩
 
-theorem coro_post (T : Tag A c) (cc : CSt c.σ) (r : Resume) (env : Env) (hok : okC T cc)
-    (hq : Safe r ∨ quietC T cc) (hn : NoNeg env) (hA : env A = 1) :
+theorem coro_post (T : Tag A c) (cc : CSt c.σ) (r : Resume) (env : Env) (hok : okC T cc) (hA : Active env A) :
     PostC T (coroSrc T cc r env) (SCoro.resume c cc r env).1 (SCoro.resume c cc r env).2.2
       (SCoro.resume c cc r env).2.1.yielded := by
   cases cc with
@@ -161,64 +126,80 @@ theorem coro_post (T : Tag A c) (cc : CSt c.σ) (r : Resume) (env : Env) (hok : 
       by_cases hv : v = 0
       · subst hv
         simp only [SCoro.resume, SCoro.send, coroSrc, ne_eq, not_true_eq_false, ↓reduceIte]
-        exact after_post T _ _ (T.post s (.send 0) env hok (Or.inl (by simp [Safe])) hn hA)
+        exact after_post T _ _ (T.post s (.send 0) env hok hA)
       · simp only [SCoro.resume, SCoro.send, coroSrc, ne_eq, hv, not_false_eq_true, ↓reduceIte]
-        exact ⟨hok, hn, hA, rfl⟩
+        exact ⟨hok, hA, rfl⟩
     | throw e =>
       simp only [SCoro.resume, SCoro.throw, coroSrc]
-      exact ⟨hok, hn, hA, rfl⟩
+      exact ⟨hok, hA, rfl⟩
   | susp s =>
-    have hq' : Safe r ∨ T.quiet s := hq
     cases r with
     | send v =>
       simp only [SCoro.resume, SCoro.send, coroSrc]
-      exact after_post T _ _ (T.post s _ env hok hq' hn hA)
+      exact after_post T _ _ (T.post s _ env hok hA)
     | throw e =>
       simp only [SCoro.resume, SCoro.throw, coroSrc]
-      exact after_post T _ _ (T.post s _ env hok hq' hn hA)
+      exact after_post T _ _ (T.post s _ env hok hA)
   | done s =>
-    cases r <;> simp only [SCoro.resume, SCoro.send, SCoro.throw, coroSrc] <;> exact ⟨hok, hn, hA, rfl⟩
+    cases r <;> simp only [SCoro.resume, SCoro.send, SCoro.throw, coroSrc] <;> exact ⟨hok, hA, rfl⟩
+
+/-- `coro.close()` never reports a yield; state reachable, `A` still active -/
+theorem close_post (T : Tag A c) (cc : CSt c.σ) (env : Env) (hok : okC T cc) (hA : Active env A) :
+    okC T (SCoro.close c cc env).1 ∧ Active (SCoro.close c cc env).2.2 A ∧
+      ∀ y, (SCoro.close c cc env).2.1 ≠ .yield y := by
+  cases cc with
+  | created s => exact ⟨hok, hA, fun y h => by simp [SCoro.close] at h⟩
+  | done s => exact ⟨hok, hA, fun y h => by simp [SCoro.close] at h⟩
+  | susp s =>
+    have hp := after_post T _ _ (T.post s (.throw .genExit) env hok hA)
+    simp only [SCoro.close]
+    rcases hx : SCoro.after (c.resume s (.throw .genExit) env) with ⟨st', o, env'⟩
+    rw [hx] at hp
+    obtain ⟨hok', hA', _⟩ := hp
+    cases o with
+    | yield y => exact ⟨hok', hA', fun y h => by simp at h⟩
+    | ret v => exact ⟨hok', hA', fun y h => by simp at h⟩
+    | raise e => cases e <;> exact ⟨hok', hA', fun y h => by simp at h⟩
 
 /-- the relay of another monitor `m ≠ A` on top of a tagged coroutine keeps the tag property -/
 theorem relayAfter_post (T : Tag A c) (m : MonId) (hm : m ≠ A) (src : Option Val)
     (x : CSt c.σ × SOut × Env) (h : PostC T src x.1 x.2.2 x.2.1.yielded) :
     PostC T src (relayAfter m x).1.coro (relayAfter m x).1.env (relayAfter m x).2.yielded := by
   obtain ⟨cc, o, env⟩ := x
-  obtain ⟨hok, hrest⟩ := h
+  obtain ⟨hok, hA, hrest⟩ := h
   have hAm : ∀ (e : Env) (v : Int), (e.set m v) A = e A := fun e v => Env.set_other e m A v (Ne.symm hm)
   cases o with
-  | ret v =>
-    obtain ⟨hn, hA, hs⟩ := hrest
-    exact ⟨hok, hn.set m 0 (by decide), by simp only [relayAfter, hAm]; exact hA, hs⟩
-  | raise e =>
-    obtain ⟨hn, hA, hs⟩ := hrest
-    exact ⟨hok, hn.set m 0 (by decide), by simp only [relayAfter, hAm]; exact hA, hs⟩
+  | ret v => exact ⟨hok, hA.set_other m 0 hm, hrest⟩
+  | raise e => exact ⟨hok, hA.set_other m 0 hm, hrest⟩
   | yield y =>
-    obtain ⟨hone, hA, hs1, hs2⟩ := hrest
+    obtain ⟨hs1, hs2⟩ := hrest
     simp only [relayAfter, relayTop]
     by_cases hneg : env m = -1
-    · -- `m`'s own oob: consumed here; then `A`'s cell cannot be -1
-      have hA1 : env A = 1 := by
-        cases hA with
-        | inl h => exact h
-        | inr h => exact absurd (hone A m h hneg) (Ne.symm hm)
-      simp only [hneg, ↓reduceIte]
-      refine ⟨hok, ?_, ?_, hs2 hA1⟩
-      · have := (hone.consume m hneg 1 (by decide)).set m 0 (by decide)
-        simpa using this
-      · simp only [hAm]; exact hA1
     · simp only [hneg, ↓reduceIte]
-      exact ⟨hok, hone, hA, hs1, hs2⟩
-
-end Asynkit.Monitor
-
-namespace Asynkit.Monitor
-open Asynkit.Proto (Val Exc Resume)
-
-variable {A : MonId} {c : SBody}
+      cases y with
+      | plain v =>
+        exact ⟨hok, hA.set_other m 1 hm, hs1, fun d h => by simp at h⟩
+      | req m' d =>
+        by_cases hmm : m' = m
+        · -- `m`'s own request: consumed here; it is not a request for `A`
+          subst hmm
+          simp only [↓reduceIte]
+          refine ⟨hok, (hA.set_other m' 1 hm).set_other m' 0 hm, ?_⟩
+          cases hsrc : src with
+          | none => rfl
+          | some d' =>
+            have := (hs1 d').mpr hsrc
+            simp at this
+            exact absurd this.1 hm
+        · simp only [hmm, ↓reduceIte]
+          exact ⟨hok, hA.set_other m 1 hm, hs1, fun d' h => by rw [hAm]; exact hs2 d' h⟩
+    · simp only [hneg, ↓reduceIte]
+      exact ⟨hok, hA, hs1, hs2⟩
 
 theorem finish_yielded (op : Op) (o : CallOut) : (op.finish o).yielded = o.yielded := by
   cases op <;> cases o <;> (try rfl) <;> (rename_i e; cases e <;> rfl)
+
+def Safe (r : Resume) : Prop := r ≠ .throw .genExit
 
 theorem asendResume_relay (m : MonId) (r : Resume) (hr : Safe r) (sys : Sys c) :
     asendResume m r sys = relayAfter m (SCoro.resume c sys.coro r sys.env) := by
@@ -236,17 +217,15 @@ def callSrc (T : Tag A c) (m : MonId) (op : Op) (cc : CSt c.σ) (env : Env) : Op
   | _, _ => startSrc T m op.first cc env
 
 theorem start_post (T : Tag A c) (m : MonId) (first : Resume) (cc : CSt c.σ) (env : Env)
-    (hok : okC T cc) (hq : Safe first ∨ quietC T cc) (hn : NoNeg env) (hA : env A = 1) :
+    (hok : okC T cc) (hA : Active env A) :
     PostC T (startSrc T m first cc env) (asendStart m first ⟨cc, env⟩).1.coro
       (asendStart m first ⟨cc, env⟩).1.env (asendStart m first ⟨cc, env⟩).2.yielded ∧
     (∀ y, (asendStart m first (⟨cc, env⟩ : Sys c)).2 = .pending y → m ≠ A) := by
   unfold asendStart startSrc
   by_cases h0 : env m = 0
   · have hm : m ≠ A := by
-      intro h; subst h; rw [hA] at h0; exact absurd h0 (by decide)
-    have hn1 : NoNeg (env.set m 1) := hn.set m 1 (by decide)
-    have hA1 : (env.set m 1) A = 1 := by rw [Env.set_other _ _ _ _ (Ne.symm hm)]; exact hA
-    have hp := coro_post T cc first (env.set m 1) hok hq hn1 hA1
+      intro h; subst h; exact hA.ne_zero h0
+    have hp := coro_post T cc first (env.set m 1) hok (hA.set_other m 1 hm)
     simp only [h0, ne_eq, not_true_eq_false, ↓reduceIte]
     refine ⟨?_, fun _ _ => hm⟩
     rcases hx : SCoro.resume c cc first (env.set m 1) with ⟨cs, o, env1⟩
@@ -255,75 +234,73 @@ theorem start_post (T : Tag A c) (m : MonId) (first : Resume) (cc : CSt c.σ) (e
     cases o with
     | yield y => exact hgen
     | ret v => exact hgen
-    | raise e =>
-      -- (also when the coroutine itself raised OOBData on the first activation, line 84: same state)
-      cases e <;> exact hgen
+    | raise e => cases e <;> exact hgen
   · simp only [ne_eq, h0, not_false_eq_true, ↓reduceIte]
-    exact ⟨⟨hok, hn, hA, rfl⟩, fun y h => by simp at h⟩
+    exact ⟨⟨hok, hA, rfl⟩, fun y h => by simp at h⟩
 
 theorem callStart_post (T : Tag A c) (m : MonId) (op : Op) (cc : CSt c.σ) (env : Env)
-    (hok : okC T cc) (hq : Safe op.first ∨ quietC T cc) (hn : NoNeg env) (hA : env A = 1) :
+    (hok : okC T cc) (hA : Active env A) :
     PostC T (callSrc T m op cc env) (callStart m op ⟨cc, env⟩).1.coro
       (callStart m op ⟨cc, env⟩).1.env (callStart m op ⟨cc, env⟩).2.yielded ∧
     (∀ y, (callStart m op (⟨cc, env⟩ : Sys c)).2 = .pending y → m ≠ A) := by
   by_cases hcl : op = .aclose ∧ SCoro.isDone cc = true
   · obtain ⟨rfl, hd⟩ := hcl
     simp only [callStart, callSrc, hd]
-    exact ⟨⟨hok, hn, hA, rfl⟩, fun y h => by simp at h⟩
+    exact ⟨⟨hok, hA, rfl⟩, fun y h => by simp at h⟩
   · have hcs : callStart m op (⟨cc, env⟩ : Sys c) =
         ((asendStart m op.first ⟨cc, env⟩).1, op.finish (asendStart m op.first ⟨cc, env⟩).2) := by
       cases op <;> cases hd : SCoro.isDone cc <;> simp_all [callStart]
     have hsrc : callSrc T m op cc env = startSrc T m op.first cc env := by
       cases op <;> cases hd : SCoro.isDone cc <;> simp_all [callSrc]
-    obtain ⟨hp, hpm⟩ := start_post T m op.first cc env hok hq hn hA
+    obtain ⟨hp, hpm⟩ := start_post T m op.first cc env hok hA
     rw [hcs, hsrc]
     refine ⟨?_, ?_⟩
     · simpa only [finish_yielded] using hp
     · intro y hy
       exact hpm y (finish_pending op _ y hy)
 
-theorem callResume_post (T : Tag A c) (m : MonId) (hm : m ≠ A) (op : Op) (r : Resume) (hr : Safe r)
-    (cc : CSt c.σ) (env : Env) (hok : okC T cc) (hn : NoNeg env) (hA : env A = 1) :
-    PostC T (coroSrc T cc r env) (callResume m op r ⟨cc, env⟩).1.coro
+/-- source of the activation performed by resuming a suspended call (none when it is being closed) -/
+def resumeSrc (T : Tag A c) (cc : CSt c.σ) (r : Resume) (env : Env) : Option Val :=
+  match r with
+  | .throw .genExit => none
+  | r => coroSrc T cc r env
+
+theorem callResume_post (T : Tag A c) (m : MonId) (hm : m ≠ A) (op : Op) (r : Resume)
+    (cc : CSt c.σ) (env : Env) (hok : okC T cc) (hA : Active env A) :
+    PostC T (resumeSrc T cc r env) (callResume m op r ⟨cc, env⟩).1.coro
       (callResume m op r ⟨cc, env⟩).1.env (callResume m op r ⟨cc, env⟩).2.yielded := by
-  have hp := coro_post T cc r env hok (Or.inl hr) hn hA
-  have hgen := relayAfter_post T m hm _ _ hp
-  simp only [callResume, finish_yielded, asendResume_relay m r hr]
-  exact hgen
-
-end Asynkit.Monitor
-
-namespace Asynkit.Monitor
-open Asynkit.Proto (Val Exc Resume)
-
-variable {A : MonId} {c : SBody}
-
-/-- a parent step that never sends GeneratorExit into its child (no `aclose`, no `athrow(GeneratorExit)`) -/
-def PStep.GEfree {σ : Type} : PStep σ → Prop
-  | .oob _ _ _ refused => (refused ()).GEfree
-  | .sub _ op _ k => Safe op.first ∧ ∀ how r, (k how r).GEfree
-  | _ => True
-
-/-- what makes GeneratorExit harmless for the child: it never waits in a sub-call of its own (a leaf),
-    or this parent never sends it one -/
-def Harmless (T : Tag A c) {σ : Type} (st : PStep σ) : Prop := (∀ s, T.quiet s) ∨ st.GEfree
+  by_cases hr : r = .throw .genExit
+  · -- the relay closes the coroutine (`coro.close(); raise`): whatever it yields is swallowed
+    subst hr
+    obtain ⟨hok', hA', _⟩ := close_post T cc env hok hA
+    simp only [callResume, asendResume, resumeSrc, finish_yielded]
+    rcases hx : SCoro.close c cc env with ⟨cs, o, env1⟩
+    rw [hx] at hok' hA'
+    cases o with
+    | yield y => exact ⟨hok', hA'.set_other m 0 hm, rfl⟩
+    | ret v => exact ⟨hok', hA'.set_other m 0 hm, rfl⟩
+    | raise e => exact ⟨hok', hA'.set_other m 0 hm, rfl⟩
+  · have hs : resumeSrc T cc r env = coroSrc T cc r env := by
+      cases r with
+      | send v => rfl
+      | throw e => cases e <;> first | rfl | exact absurd rfl hr
+    have hp := coro_post T cc r env hok hA
+    have hgen := relayAfter_post T m hm _ _ hp
+    simp only [callResume, finish_yielded, asendResume_relay m r hr, hs]
+    exact hgen
 
 /-- reachable states of `nest p c`: the child's are, and nobody waits in a sub-call through `A` itself
     (such a call is refused while `A` is active) -/
 def okN (T : Tag A c) (p : PBody) : NSt p.σ c.σ → Prop
   | .at _ cc => okC T cc
-  | .inSub m _ _ k cc => okC T cc ∧ m ≠ A ∧ ∀ how r, Harmless T (k how r)
-
-def quietN (p : PBody) : NSt p.σ c.σ → Prop
-  | .at _ _ => True
-  | .inSub .. => False
+  | .inSub m _ _ _ cc => okC T cc ∧ m ≠ A
 
 /-- source for a parent: its own accepted `A.oob(d)`, or the source of the child activation that left
     a sub-call suspended -/
 def nestSrc (T : Tag A c) (p : PBody) : PStep p.σ → CSt c.σ → Env → Option Val
   | .yield _ _, _, _ => none
   | .oob m d _ refused, cc, env =>
-    if env m ≠ 1 then nestSrc T p (refused ()) cc env else if m = A then some d else none
+    if env m = 0 then nestSrc T p (refused ()) cc env else if m = A then some d else none
   | .sub m op _ k, cc, env =>
     match callStart m op (⟨cc, env⟩ : Sys c) with
     | (_, .pending _) => callSrc T m op cc env
@@ -333,98 +310,69 @@ def nestSrc (T : Tag A c) (p : PBody) : PStep p.σ → CSt c.σ → Env → Opti
   | .raise _ _, _, _ => none
 
 theorem nestRun_post (T : Tag A c) (p : PBody) (st : PStep p.σ) :
-    ∀ (cc : CSt c.σ) (env : Env), Harmless T st → okC T cc → NoNeg env → env A = 1 →
+    ∀ (cc : CSt c.σ) (env : Env), okC T cc → Active env A →
       Post A (okN T p) (nestSrc T p st cc env) (nestRun p c st cc env) := by
   induction st with
   | yield y s =>
-    intro cc env _ hok hn hA
-    exact ⟨hok, hn.atMostOne, Or.inl hA, fun h => absurd h (hn A), fun _ => rfl⟩
-  | ret v s => intro cc env _ hok hn hA; exact ⟨hok, hn, hA, rfl⟩
-  | raise e s => intro cc env _ hok hn hA; exact ⟨hok, hn, hA, rfl⟩
+    intro cc env hok hA
+    exact ⟨hok, hA, fun d => by simp [nestSrc], fun d h => by simp at h⟩
+  | ret v s => intro cc env hok hA; exact ⟨hok, hA, rfl⟩
+  | raise e s => intro cc env hok hA; exact ⟨hok, hA, rfl⟩
   | oob m d s refused ih =>
-    intro cc env hh hok hn hA
-    have hh' : Harmless T (refused ()) := hh.imp id (fun h => h)
+    intro cc env hok hA
     simp only [nestRun, nestSrc]
-    by_cases h1 : env m = 1
-    · simp only [h1, ne_eq, not_true_eq_false, ↓reduceIte]
-      have hone : AtMostOneNeg (env.set m (-1)) := by
-        intro a b ha hb
-        have ha' : a = m := by
-          by_cases h : a = m
-          · exact h
-          · rw [Env.set_other _ _ _ _ h] at ha; exact absurd ha (hn a)
-        have hb' : b = m := by
-          by_cases h : b = m
-          · exact h
-          · rw [Env.set_other _ _ _ _ h] at hb; exact absurd hb (hn b)
-        rw [ha', hb']
-      by_cases hm : m = A
-      · subst hm
-        exact ⟨hok, hone, Or.inr (by simp), fun _ => by simp, fun h => by simp at h⟩
-      · have hA' : (env.set m (-1)) A = 1 := by rw [Env.set_other _ _ _ _ (Ne.symm hm)]; exact hA
-        exact ⟨hok, hone, Or.inl hA', fun h => by rw [hA'] at h; simp at h, fun _ => by simp [hm]⟩
-    · simp only [h1, ne_eq, not_false_eq_true, ↓reduceIte]
-      exact ih () cc env hh' hok hn hA
+    by_cases h0 : env m = 0
+    · simp only [h0, ↓reduceIte]; exact ih () cc env hok hA
+    · simp only [h0, ↓reduceIte]
+      exact oob_post A (okN T p) m d (.at s cc) env hok hA
   | sub m op s k ih =>
-    intro cc env hh hok hn hA
-    have hk : ∀ how r, Harmless T (k how r) := fun how r => hh.imp id (fun h => h.2 how r)
-    have hq : Safe op.first ∨ quietC T cc := by
-      cases hh with
-      | inl hquiet => exact Or.inr (by cases cc <;> simp [quietC, hquiet])
-      | inr hg => exact Or.inl hg.1
-    obtain ⟨hp, hpm⟩ := callStart_post T m op cc env hok hq hn hA
+    intro cc env hok hA
+    obtain ⟨hp, hpm⟩ := callStart_post T m op cc env hok hA
     simp only [nestRun, nestSrc]
     rcases hx : callStart m op (⟨cc, env⟩ : Sys c) with ⟨⟨cc', env'⟩, o⟩
     rw [hx] at hp hpm
     cases o with
     | pending y =>
-      obtain ⟨hok', hrest⟩ := hp
-      exact ⟨⟨hok', hpm y rfl, hk⟩, hrest⟩
+      obtain ⟨hok', hA', hrest⟩ := hp
+      exact ⟨⟨hok', hpm y rfl⟩, hA', hrest⟩
     | returned v =>
-      obtain ⟨hok', hn', hA', _⟩ := hp
-      exact ih none (.send v) cc' env' (hk _ _) hok' hn' hA'
+      obtain ⟨hok', hA', _⟩ := hp
+      exact ih none (.send v) cc' env' hok' hA'
     | raised e =>
-      obtain ⟨hok', hn', hA', _⟩ := hp
-      exact ih none (.throw e) cc' env' (hk _ _) hok' hn' hA'
+      obtain ⟨hok', hA', _⟩ := hp
+      exact ih none (.throw e) cc' env' hok' hA'
 
-/-- `nest p c` is tagged when `c` is and either `c` is always quiet (a leaf: any parent will do) or the
-    parent never sends GeneratorExit down.  GeneratorExit arriving from *above* while the parent waits in
-    a sub-call is the excluded case (`quietN`). -/
-def tagNest (T : Tag A c) (p : PBody) (hh : ∀ s r, Harmless T (p.resume s r)) : Tag A (nest p c) where
+/-- `nest p c` is tagged whenever `c` is: any parent, any child, no side condition -/
+def tagNest (T : Tag A c) (p : PBody) : Tag A (nest p c) where
   ok := okN T p
-  quiet := quietN p
   src := fun st r env =>
     match st with
     | .at s cc => nestSrc T p (p.resume s r) cc env
     | .inSub m op _ k cc =>
       match callResume m op r (⟨cc, env⟩ : Sys c) with
-      | (_, .pending _) => coroSrc T cc r env
+      | (_, .pending _) => resumeSrc T cc r env
       | (⟨cc', env'⟩, .returned v) => nestSrc T p (k (some r) (.send v)) cc' env'
       | (⟨cc', env'⟩, .raised e) => nestSrc T p (k (some r) (.throw e)) cc' env'
   ok_init := T.ok_init
   post := by
-    intro st r env hok hq hn hA
+    intro st r env hok hA
     cases st with
-    | «at» s cc => exact nestRun_post T p (p.resume s r) cc env (hh s r) hok hn hA
+    | «at» s cc => exact nestRun_post T p (p.resume s r) cc env hok hA
     | inSub m op s k cc =>
-      obtain ⟨hokc, hm, hk⟩ := hok
-      have hr : Safe r := by
-        cases hq with
-        | inl h => exact h
-        | inr h => exact absurd h (by simp [quietN])
-      have hp := callResume_post T m hm op r hr cc env hokc hn hA
+      obtain ⟨hokc, hm⟩ := hok
+      have hp := callResume_post T m hm op r cc env hokc hA
       simp only [nest]
       rcases hx : callResume m op r (⟨cc, env⟩ : Sys c) with ⟨⟨cc', env'⟩, o⟩
       rw [hx] at hp
       cases o with
       | pending y =>
-        obtain ⟨hok', hrest⟩ := hp
-        exact ⟨⟨hok', hm, hk⟩, hrest⟩
+        obtain ⟨hok', hA', hrest⟩ := hp
+        exact ⟨⟨hok', hm⟩, hA', hrest⟩
       | returned v =>
-        obtain ⟨hok', hn', hA', _⟩ := hp
-        exact nestRun_post T p _ cc' env' (hk _ _) hok' hn' hA'
+        obtain ⟨hok', hA', _⟩ := hp
+        exact nestRun_post T p _ cc' env' hok' hA'
       | raised e =>
-        obtain ⟨hok', hn', hA', _⟩ := hp
-        exact nestRun_post T p _ cc' env' (hk _ _) hok' hn' hA'
+        obtain ⟨hok', hA', _⟩ := hp
+        exact nestRun_post T p _ cc' env' hok' hA'
 
 end Asynkit.Monitor
